@@ -112,10 +112,22 @@ def _emit_binop(opcls: type, left: str, right: str, helpers: Optional[Set[str]])
 ANALOG_PIN_RE = re.compile(r"^A\d+$")
 
 
+_C_STRING_ESCAPES = {"\\": "\\\\", '"': '\\"', "\n": "\\n", "\r": "\\r", "\t": "\\t"}
+
+
 def _escape_string_literal(value: str) -> str:
     """Escape a Python string literal into a C/C++ literal body."""
 
-    return value.replace("\\", "\\\\").replace('"', '\\"')
+    escaped: List[str] = []
+    for ch in value:
+        if ch in _C_STRING_ESCAPES:
+            escaped.append(_C_STRING_ESCAPES[ch])
+        elif ord(ch) < 0x20 or ord(ch) == 0x7F:
+            # Three octal digits, so that a digit that follows is not absorbed.
+            escaped.append(f"\\{ord(ch):03o}")
+        else:
+            escaped.append(ch)
+    return "".join(escaped)
 
 
 class _ExprStr(str):
